@@ -94,3 +94,22 @@ func VH_C11_anystate() {
 	vrt.Assert(c.Get() < 1<<24, "Get < 2^24 from any raw state")
 	vrt.Assert(c.Get() == uint32(c.Overflow())*256+uint32(c.SQN()), "Get = Overflow*256+SQN from any raw state")
 }
+
+// Runs of increments with nothing in between (no read, no setter): the induction above observes the counter after
+// every step; state that an implementation keeps outside `count` between observations only shows in longer runs.
+// From an arbitrary state built through the API, n back-to-back increments add n modulo 2^24.
+func VH_C11_runs() {
+	var c Count
+	ov, sqn := vrt.U16("ov"), vrt.U8("sqn")
+	c.Set(ov, sqn)
+	n := []int{1, 2, 255, 256, 257, 511, 512, 1000, 65535, 65536, 65537}[vrt.Choose("run", 0, 10)]
+	for i := 0; i < n; i++ {
+		c.AddOne()
+	}
+	want := (uint32(ov)<<8 | uint32(sqn)) + uint32(n)
+	want &= 1<<24 - 1
+	vrt.Assert(c.Get() == want, "a run of n increments adds n modulo 2^24")
+	vrt.Assert(uint32(c.Overflow()) == want>>8 && uint32(c.SQN()) == want&0xff, "overflow and sequence number after a run of increments")
+	c.SetSQN(vrt.U8("sqn2"))
+	vrt.Assert(uint32(c.Overflow()) == want>>8, "SetSQN after a run keeps the overflow part")
+}
